@@ -24,6 +24,20 @@ Domain : mode (Colang 1.0: three-step dialog pipeline, single-call mode `rails.d
                    clean-up leaves an empty intent), `bot $<variable>` naming a context variable whose value is not a string
                    (`$event` - always a dict -, `$relevant_chunks_sep`, `$retrieved_for`, `$skip_output_rails`, or a variable
                    of type int / float / bool / list / dict / null that the caller's context message plants: case["ctx"]).
+           dat   - a *plain-data message text* (DATA below): no template and no Colang syntax, but awkward for code that
+                   post-processes or stores a completion: a LONE UTF-16 SURROGATE (half of an escaped emoji, what a JSON decoder
+                   yields for a completion cut in the middle of one; high / low / reversed pair / doubled / alone) and the
+                   REASONING-TRACE TOKENS `<think>` / `</think>` in every arrangement that is not one well-formed block (opened and
+                   never closed = truncated, closed before opened, only mentioned, closed block followed by an open one, a
+                   partial token) - as the message text in the format of the task (bare at a non-message task), with the call's
+                   marker; the same two families are raw corpus classes (`surrogate-*`, `think-*`: any task, as they are) and
+                   insertion tokens of the mutations.  Texts with a surrogate travel ESCAPED in the case (`\\ud83d` as six
+                   ASCII characters, spec flag `esc`) and are decoded when the answer is returned: a case is plain ASCII JSON.
+         Plain-data shape (a quarter of the cases without another shape, every mode): the FINAL bot message of one, two or all
+         turns is a dat text (the same in every turn or another in each; two fifths surrogates only, two fifths think tokens
+         only), the turn taking a route whose message the LLM writes.  User texts and markers contain no ':' and start with a
+         letter, the caller passes no `state` in Colang 1.0: such conversations take the plain form of the implicit history
+         cache key (measured: labels `lone-surrogate-replies=<n>`, `lone-surrogate-reply:history-key-plain|json`).
          Repeated shape (a third of the multi-turn Colang 1.0 cases): the SAME hostile answer at the same call position of two
          or three turns of the conversation (consecutive, around a well-formed turn, after one), half of them drawn from the
          classes that leave no usable bot intent - the answers that make the generation action itself fail, so that the
@@ -95,11 +109,21 @@ RULE = (
     "mutation of the well-formed answer (mut: delete/insert/replace/duplicate/truncate/re-indent/unquote operations drawn as data), or a control "
     "string (ctl: a literal text the tree special-cases - `(remove last message)`, `...`, the streaming placeholder, fallback texts - as the exact "
     "message text in the task's format; a fifth of the v1 cases place one at the first bot utterance of a turn whose first message the LLM writes), "
+    "or a plain-data message text (dat: a lone UTF-16 surrogate - high, low, reversed pair, doubled, alone; stored escaped in the case and decoded when returned - or the "
+    "reasoning-trace tokens <think> / </think> in an arrangement that is not one well-formed block - never closed, closed before opened, only mentioned, a closed block followed "
+    "by an open one, a partial token - with the call's marker, as the message text in the format of the task, bare at a non-message task; the same two families are raw corpus "
+    "classes surrogate-* / think-* returned as they are at any task, and insertion tokens of the mutations), "
     "or (v1 dialog modes) a hostile bot intent in the format of the task that names the bot intent (int: `bot <intent>` at the next-step call, as the first or a later "
     "step of a multi-step flow, as the second line of a single-call completion; classes: nothing before a message or a comma = empty intent after the documented "
     "clean-up, `$variable` naming a context variable whose value is not a string - `$event`, `$relevant_chunks_sep`, `$retrieved_for`, `$skip_output_rails` or a "
     "planted one -, unknown / dotted names, a lone `$`); a third of the v1 cases (and every case whose bot intent names one) plant variables of type int, float, "
     "bool, list, dict and null next to secret_var in the caller's context message (label context:non-string-variables-planted). "
+    "Plain-data shape (a quarter of the cases that have no other shape, every mode): the final bot message of one, two or all turns of the conversation (turn sets 0 / 1 / 0+1 / 0+2 / "
+    "1+2 / 0+1+2) is a dat text - the same one in every such turn or another one in each, two fifths of the cases surrogates only, two fifths think tokens only - at the call that "
+    "writes the (first) bot message of a route whose message the LLM writes (llm, next_llm, lp, ll, act_llm; single call; general / passthrough; v2 flow continuation / value); user "
+    "texts and markers contain no ':' and do not start with '{' or '[', and the v1 caller passes no state, so these conversations take the plain form of the implicit history cache "
+    "key (measured from the conversation: labels reply-with-lone-surrogate:<mode>, lone-surrogate-replies=<n>, lone-surrogate-reply:history-key-plain|json, "
+    "reply-with-unclosed-think:<mode>, <family>:<kind>:<task>, plain-data:<task>; counters surrogate|mode|task|k|kind, think|..., surrogate-reply|mode|key form|turns). "
     "Repeated shape (a third of the multi-turn v1 cases, label same-answer-in-turns=<n>): the same hostile answer at the same call position of two or three turns "
     "of one conversation (turns 0+1, 0+2, 1+2, 0+1+2; the repeated turns take the same route), half of the answers drawn from the classes that leave no usable bot "
     "intent at the intent-naming position, i.e. the answers that make the generation action fail: the share of conversations in which two or more turns ended in "
@@ -117,8 +141,8 @@ RULE = (
     "the bot-intent line of a single-call answer) at the next-step position of a later turn. An enumerated core crosses the literal dimension with the value-generation calls (quick: 6 leaves x 6 slots x bare / inside a tuple, and the three unholdable "
     "leaf families x 6 slots under two wrapper chains, at the value of v2value; the unholdable part split over the first and the second value of v2interp; thorough: every leaf x "
     "slot x 0-2 tuples, plus wrapper chains for the unholdable leaves, at v2value, both values of v2interp and the `$val = ...` call of the four v1 dialog modes), every mode x "
-    "call position x corpus class (raw, payload, control string; v1 dialog modes: hostile bot intent, in multi-step mode as first and as later step) in the first turn, "
-    "the repeated shape over every v1 mode x call position x (a core of the raw classes, one control string, the hostile bot intents) for turns 0+1 and over every pattern of turns "
+    "call position x corpus class (raw incl. think-* / surrogate-*, payload, control string, plain-data text - quick: three surrogate and three think arrangements, thorough: all; v1 dialog modes: hostile bot intent, in multi-step mode as first and as later step) in the first turn, "
+    "the repeated shape over every v1 mode x call position x (a core of the raw classes, one control string, the plain-data texts, the hostile bot intents) for turns 0+1 and over every pattern of turns "
     "for the hostile bot intents at the intent-naming position, control strings at the first utterance of the second turn for "
     "every v1 mode, every ordered pair (k, j) of the peer-placeholder shape over the v2interp configurations, and the stored-text shape over mode x first route x payload x echo intent. "
     "Non-trivial = at least one placement was consumed by an LLM call that really happened (measured from the call log); distinct by "
@@ -136,12 +160,15 @@ ASSUMPTIONS = [
     "built literal answers (py-lit:*): the source text is assembled at generation time from leaf / tuples / slot / wrappers and travels in the case; every one is accepted by ast.literal_eval; what the flow variable holds afterwards (the value, or nothing when the literal contains an element no variable can hold and the action fails) and what the bot then says is unspecified - asserted is only the statement's general part: generate returns a well-formed message and does not raise, in that turn and in every later turn (the Colang 2.x caller hands the returned state back, so a value that was accepted must also survive the state round trip); a literal that carries the call's marker in a str leaf is additionally subject to the existing no-evaluation tests (S3CR3T / 49), never to the literal-text test",
     "planted context variables (case[\"ctx\"]) are JSON values handed over in the caller's `context` message exactly like secret_var; pure passthrough mode runs without them (see below)",
     "control strings (ctl) carry no marker and no literal-text obligation: what `(remove last message)` or `...` does to the reply is the tree's documented special-casing; asserted is only that the turn completes with a well-formed message (an empty assistant message when the retracting string is the first utterance)",
+    "plain-data texts (dat; raw classes surrogate-* / think-*) carry no literal-text obligation: a lone surrogate and a think token are plain data, not template or variable syntax - asserted is only the statement's general part: generate returns a well-formed message (the text itself or any other well-formed reply) and does not raise or hang, in that turn and in every later turn of the conversation; on the unchanged tree all 432 enumerated cases of the two families hold, the Colang 1.0 modes and PassthroughLLMAction return the text",
+    "a text with a lone surrogate is stored escaped in the case (`\\ud83d`, six ASCII characters, spec flag `esc`; unesc() decodes it when the scripted LLM returns the answer), so that a replay file is ASCII JSON and reproduces whatever tool rewrites it; violation messages quote texts through repr(), the runner writes JSON with ensure_ascii",
+    "the v1 caller of this check never passes `state` and its user texts / markers contain no ':' and start with a letter, so the conversation takes the plain form of the implicit history cache key unless an LLM text brings a ':' or a leading bracket in; which form a conversation with a surrogate reply took is measured and reported (history-key-plain|json), not assumed",
     "inputs that reach genuine defects found by this check but not listed in known_findings.json are withheld from generation until the id is listed (PENDING_RAW / PENDING_INTERP: C17-F7i expression errors in multi-step generated flows, C17-F7j self-starting generated Colang 2.x flows, C17-F7k `{{`/`}}` payloads in v2interp); VF_C17_PENDING=1 generates them regardless",
     "payloads at message positions contain no double quotes, newlines or backslashes (quote stripping, first-line rules and the documented backslash-n conversion would otherwise blur 'literally'); those characters are covered by the raw corpus without the literal-text oracle",
     "`Too many events.` (v1 safety limit of 100 events per turn) escaping `generate` counts as raising: the statement says never raises",
     "a violation seen on a cached LLMRails instance must reproduce on a fresh one, otherwise it is a harness error; dynamic flows that a case adds to the cached instance (v1 start_flow, v2 AddFlowsAction) are removed before the next case",
     "pure passthrough mode (`passthrough: true` without dialog rails) runs without the planted context variable: the raw message list is handed to the LLM call, which rejects the `context` role before any LLM output exists",
-    "hang = generate not back after CASE_TIMEOUT (40 s; the slowest 50k-character case takes < 2 s) and again not after 3x on a fresh instance; multi-step cases whose corpus text spells a `goto`/`continue` cycle (text signature of the listed hang C17-F7e) use 6 s / 18 s so that the listed finding costs seconds per instance",
+    "hang = generate not back after CASE_TIMEOUT (40 s; the slowest 50k-character case takes < 2 s) and again not after 3x on a fresh instance; multi-step cases whose corpus text spells a `goto`/`continue` cycle (text signature of the listed hang C17-F7e) use 6 s / 18 s so that the listed finding costs seconds per instance; cases with a reasoning-trace token among the placements and no 50k text (normal time well under 1 s, at most 3 s with the construction of a Colang 2.x instance under load) use 10 s / 30 s, so that a turn that never returns for such a text is reported within the quick tier's time",
 ]
 
 # ------------------------------------------------------------------------------------------------
@@ -459,6 +486,28 @@ RAW = {
     "markdown-fence": f"```colang\nbot a\n```\n{M}",
     "html": f"<script>alert(1)</script> {M}",
     "yaml-ish": "- a: 1\n  b: [",
+    # reasoning-trace tokens that are NOT a well-formed `<think>...</think>` block: opened and never closed (a truncated
+    # completion), closed before opened, the bare tokens, a text that merely mentions them
+    "think-open-only": "<think>",
+    "think-close-only": "</think>",
+    "think-unclosed-truncated": f"<think>\nThe user asks something. I should {M}",
+    "think-unclosed-then-answer": f'<think>\n  "{M} answer after an open trace"',
+    "think-unclosed-tail": f'  "{M} answer"\n<think>',
+    "think-reversed": f"</think>\n{M} answer first <think>",
+    "think-closed-then-unclosed": f"<think>a</think>\n{M} b <think> c",
+    "think-bot-intent": "bot <think>",
+    "think-mention-quoted": f'  "{M} the token </think> closes what <think> opens"',
+    "think-partial-token": f"<think {M} never a token",
+    # lone UTF-16 surrogates (what a JSON decoder yields for a completion that was cut in the middle of an escaped emoji); the
+    # text travels ESCAPED in the case (six ASCII characters `\ud83d`, see ESC / unesc) and is decoded when it is returned
+    "surrogate-only": BS + "ud83d",
+    "surrogate-low-only": BS + "ude00",
+    "surrogate-quoted-message": f'  "{M} half an emoji {BS}ud83d"',
+    "surrogate-unquoted-tail": f"{M} cut here {BS}ud83d",
+    "surrogate-reversed-pair": f"{M} {BS}ude00{BS}ud83d swapped",
+    "surrogate-bot-intent": f"bot inform {BS}ud83d",
+    "surrogate-user-intent": f"  ask {BS}udc00 thing",
+    "surrogate-single-call": f'  ask weather\nbot inform weather\n  "{M} sunny {BS}ud83d"',
     "long-words": None,  # built at run time: see LONG
     "long-line": None,
     "long-lines": None,
@@ -512,6 +561,49 @@ CTL = {
     "ctl-none": "None",
 }
 CORE_CTL = ["ctl-remove-last-message", "ctl-ellipsis", "ctl-streaming-placeholder"]
+
+# PLAIN-DATA message texts: texts without any template / Colang syntax that are nevertheless awkward for code that post-processes
+# or stores a completion - a lone UTF-16 surrogate (half of an escaped emoji: a `str` that no strict codec can encode), and the
+# reasoning-trace tokens `<think>` / `</think>` in any arrangement that is NOT one well-formed block (never closed = truncated
+# completion, closed before opened, only mentioned).  A `dat` placement returns the text (with the call's marker) as the message
+# text in the format of the task at that position - like a payload - or bare at a non-message task; no literal-text obligation
+# (the statement promises that for template / variable syntax only): the general oracle applies, in that turn and in later ones.
+# Texts with a surrogate are stored ESCAPED (`\ud83d` as six ASCII characters), so that a case / replay file stays plain ASCII
+# JSON whatever tool writes it; unesc() decodes them when the answer is returned.
+DATA = {
+    "surrogate-high-tail": f"{M} cut in the middle of an emoji {BS}ud83d",
+    "surrogate-high-mid": f"{M} half {BS}ud83d emoji",
+    "surrogate-low-head": f"{BS}ude00 {M} second half first",
+    "surrogate-reversed-pair": f"{M} {BS}ude00{BS}ud83d swapped",
+    "surrogate-two-high": f"{M} {BS}ud83d{BS}ud83d twice",
+    "surrogate-bare": BS + "udfff",
+    "think-unclosed-head": f"<think> {M} I should answer",
+    "think-unclosed-tail": f"{M} answer <think>",
+    "think-reversed": f"{M} the token </think> closes what <think> opens",
+    "think-mention-open": f"{M} a trace starts with <think> they say",
+    "think-mention-close": f"{M} </think> alone",
+    "think-closed-then-unclosed": f"<think>a</think> {M} b <think> c",
+    "think-two-unclosed": f"<think> {M} <think>",
+    "think-closed-block": f"<think>plan</think> {M} answer",
+    "think-partial-token": f"<think {M} never a token",
+}
+CORE_DATA = ["surrogate-high-tail", "surrogate-low-head", "surrogate-reversed-pair", "think-unclosed-head", "think-reversed", "think-mention-open"]
+ESC = re.compile(r"\\u([0-9a-fA-F]{4})")
+
+
+def unesc(text):
+    """`\\ud83d` (six ASCII characters in the case) -> the character U+D83D; applied to texts of specs flagged `esc` only."""
+    return ESC.sub(lambda m: chr(int(m.group(1), 16)), text)
+
+
+def has_surrogate(text):
+    return any(0xD800 <= ord(ch) <= 0xDFFF for ch in text)
+
+
+def family(c):
+    """corpus family of a class name (labels): surrogate / think / None"""
+    c = str(c)
+    return "surrogate" if c.startswith("surrogate-") else "think" if c.startswith("think-") else None
 
 # hostile BOT INTENTS: what the LLM names as the next bot intent, wrapped - like a message payload - in the format of the task at
 # the position (`bot <intent>` at the next-step call, as the first or a later step of a multi-step flow, as the second line of a
@@ -605,10 +697,13 @@ CORE_RAW = [
     "co2-bot-action-unbalanced", "co2-bot-action-undefined-and-say", "co2-bot-intent-keywords", "co2-user-intent-colon", "jinja-expr", "jinja-stmt-open", "dollar-var",
     "brace-dollar-var", "nul", "control", "non-ascii", "backslash-path", "backslash-tail", "single-verbose", "single-no-message",
     "single-unquoted", "py-expr", "py-concat", "py-int", "py-open-list", "long-line", "long-words", "long-lines",
+    "think-open-only", "think-unclosed-truncated", "think-unclosed-then-answer", "think-reversed", "surrogate-only", "surrogate-quoted-message",
+    "surrogate-bot-intent", "surrogate-single-call",
 ]
 # quick tier: corpus classes of the enumerated repeated shape (the same answer in two turns; the thorough tier uses every class)
 REPEAT_CORE = ["empty", "whitespace", "lone-quote", "prefix-bot", "prefix-user", "co1-define-flow", "co1-execute", "co1-comment-only", "co1-bot-inline-message",
-               "co1-bad-indent", "jinja-expr", "dollar-var", "nul", "backslash-tail", "single-no-message", "single-unquoted"]
+               "co1-bad-indent", "jinja-expr", "dollar-var", "nul", "backslash-tail", "single-no-message", "single-unquoted",
+               "think-unclosed-then-answer", "surrogate-quoted-message"]
 CORE_PAYLOADS = ["jinja-expr", "jinja-var", "jinja-stmt", "dollar-var", "brace-dollar-var", "brace-expr", "brace-var"]
 ECHO_PAYLOADS = CORE_PAYLOADS + ["dollar-user-message", "jinja-user-message", "jinja-filter", "dollar-brace"]
 ECHO_INTENTS = ["echo-last-bot-message", "echo-bot-message", "echo-last-user-message", "echo-last-bot-message-twice", "echo-user-then-bot-message"]
@@ -674,12 +769,21 @@ def echo_places(mode, first_route, payload_class, echo_class, s=0, t=1):
     k_msg = 2 if first_route in ("next_llm",) else 1
     return [[s, k_msg, msg_spec(payload_class)], [t, 1, raw_spec(echo_class)]]
 
-INS_TOKENS = ['"', "'", "\n", "\n  ", " ", "$", "{", "}", "{{", "}}", "{%", ":", "bot ", "user ", "#", "(", ")", BS, "\t", "...", "=", "and ", "or ", ",", "-", "\x00", "é", "$secret_var", "{{ 7*7 }}", "define flow ", "execute ", "if ", "while ", "flow ", "bot action: ", "bot intent: ", "user intent: "]
+INS_TOKENS = ['"', "'", "\n", "\n  ", " ", "$", "{", "}", "{{", "}}", "{%", ":", "bot ", "user ", "#", "(", ")", BS, "\t", "...", "=", "and ", "or ", ",", "-", "\x00", "é", "$secret_var", "{{ 7*7 }}", "define flow ", "execute ", "if ", "while ", "flow ", "bot action: ", "bot intent: ", "user intent: ",
+              "<think>", "</think>", "<think>\n", BS + "ud83d", BS + "ude00"]  # (the last two: a lone surrogate, escaped - see unesc)
 
 
 def raw_spec(c):
-    """placement spec of a corpus text (the text travels in the case; the 50k texts are built at run time)."""
-    return {"c": c, "long": True} if c in LONG else {"c": c, "text": RAW[c]}
+    """placement spec of a corpus text (the text travels in the case; the 50k texts are built at run time; a text with a lone
+    surrogate travels escaped and is flagged `esc`)."""
+    if c in LONG:
+        return {"c": c, "long": True}
+    return {"c": c, "text": RAW[c], "esc": True} if ESC.search(RAW[c]) and c.startswith("surrogate-") else {"c": c, "text": RAW[c]}
+
+
+def data_spec(c):
+    """placement spec of a plain-data message text (DATA): the text in the format of the task, no literal-text obligation."""
+    return {"c": c, "data": DATA[c], "esc": True} if ESC.search(DATA[c]) else {"c": c, "data": DATA[c]}
 
 
 def msg_spec(c):
@@ -708,6 +812,7 @@ def st_spec(intents=False):
     raw = st.sampled_from(pool).map(raw_spec)
     msg = st.sampled_from(sorted(PAYLOADS)).map(msg_spec)
     ctl = st.sampled_from(sorted(CTL)).map(ctl_spec)
+    dat = st.sampled_from(sorted(DATA)).map(data_spec)
     pos = st.integers(0, 1000)
     op = st.one_of(
         st.tuples(st.just("del"), pos, st.integers(1, 12)),
@@ -727,8 +832,8 @@ def st_spec(intents=False):
     sticky = st.sampled_from(pool).map(lambda c: dict(raw_spec(c), sticky=True))
     lit = st_lit_spec()  # built literal answers (meant for the value-generation calls; harmless raw text anywhere else)
     if intents:  # Colang 1.0 modes: hostile bot intents in the format of the task
-        return st.one_of(raw, raw, msg, mut, mut, sticky, ctl, st_int_spec(), lit)
-    return st.one_of(raw, raw, msg, mut, mut, sticky, ctl, lit)
+        return st.one_of(raw, raw, msg, mut, mut, sticky, ctl, st_int_spec(), lit, dat)
+    return st.one_of(raw, raw, msg, mut, mut, sticky, ctl, lit, dat)
 
 
 def mutate(text, ops):
@@ -744,10 +849,10 @@ def mutate(text, ops):
             text = text[:i] + text[i + op[2]:]
         elif name == "ins":
             i = at(op[1])
-            text = text[:i] + op[2] + text[i:]
+            text = text[:i] + unesc(op[2]) + text[i:]
         elif name == "rep":
             i = at(op[1])
-            text = text[:i] + op[3] + text[i + op[2]:]
+            text = text[:i] + unesc(op[3]) + text[i + op[2]:]
         elif name == "trunc":
             text = text[: at(op[1])]
         elif name == "dupline":
@@ -904,8 +1009,14 @@ class C17Session(fakes.Session):
                 self.reached.append({"turn": turn, "k": k, "task": task, "c": None, "answer": base})
                 return base
         c = spec["c"]
+        un = unesc if spec.get("esc") else (lambda x: x)
         if spec.get("text") is not None:
-            answer, kind = spec["text"].replace(M, marker), "raw"
+            answer, kind = un(spec["text"]).replace(M, marker), "raw"
+        elif spec.get("data") is not None:
+            # plain-data message text: in the format of the task (at a non-message task: the bare text)
+            text = un(spec["data"]).replace(M, marker)
+            answer = self.wellformed(task, prompt, turn, k, payload=text) if task in MESSAGE_TASKS else text
+            kind = "dat"
         elif spec.get("long"):
             answer, kind = LONG[c](marker), "raw"
         elif spec.get("payload") is not None:
@@ -1126,6 +1237,23 @@ def _case(draw):
             turns[t]["route"] = draw(st.sampled_from(["llm", "lp", "ll"]))
             turns[t]["user"] = f"{mk_user(t)} {USER_TEXT[turns[t]['route']]}"
         places.setdefault((t, first_msg), draw(st.sampled_from(sorted(CTL)).map(ctl_spec)))
+    if not self_rails and not places and draw(st.sampled_from([True, False, False, False])):
+        # plain-data shape: the FINAL bot message of one, two or all turns of the conversation is a plain-data text (a lone
+        # surrogate, reasoning-trace tokens that do not form a block), the same text in every such turn or another one in each;
+        # the turn takes a route whose (first) bot message the LLM writes, the placement sits at that call
+        ts = draw(st.sampled_from([ts_ for ts_ in ([0], [0, 1], [0, 1], [1], [0, 2], [1, 2], [0, 1, 2], [0, 1, 2]) if ts_[-1] < n]))
+        fam = draw(st.sampled_from(["surrogate", "surrogate", "think", "think", None]))
+        pool_ = [c for c in sorted(DATA) if fam is None or family(c) == fam]
+        one = draw(st.sampled_from(pool_)) if draw(st.booleans()) else None
+        for t in ts:
+            if cfg["dialog"] and not v2:
+                turns[t]["route"] = draw(st.sampled_from(["llm", "llm", "next_llm", "lp", "ll", "act_llm"]))
+                turns[t]["user"] = f"{mk_user(t)} {USER_TEXT[turns[t]['route']]}"
+            elif cfg["dialog"]:
+                turns[t]["route"] = "llm"
+                turns[t]["user"] = f"{mk_user(t)} {USER_TEXT['llm']}"
+            k = first_message_k(cfg, turns[t]["route"])
+            places[(t, k)] = data_spec(one or draw(st.sampled_from(pool_)))
     if cfg["v"] == 1 and cfg["dialog"] and not places and draw(st.sampled_from([True] + [False] * 7)):
         # the literal dimension at the value-generation call of the Colang 1.0 flow `$val = ...` / `bot $val` (call 1 of a turn of route `value`)
         t = draw(st.integers(0, n - 1))
@@ -1147,6 +1275,17 @@ def _case(draw):
     return case
 
 
+def first_message_k(cfg, route):
+    """index of the LLM call of a turn that writes the (first) bot message of the turn, for a route whose message the LLM writes
+    (configurations without the self-check rails)."""
+    mode = cfg["mode"]
+    if mode in ("three", "multi", "passdlg"):
+        return 2 if route == "next_llm" else 1  # user intent, [next step,] bot message
+    if mode == "v2llmc":
+        return 1  # user intent, flow continuation
+    return 0  # single call, general / passthrough, one-call continuation, value generation
+
+
 def strategy(tier):
     return _case()
 
@@ -1157,6 +1296,7 @@ def enumerate_cases(tier):
     pays = CORE_PAYLOADS if tier == "quick" else sorted(PAYLOADS)
     ctls = CORE_CTL if tier == "quick" else sorted(CTL)
     ints = CORE_INTENTS if tier == "quick" else sorted(INTENTS)
+    datas = CORE_DATA if tier == "quick" else sorted(DATA)
     # literal answers at the value-generation calls: leaf x tuples around it x slot in the container (x outer wrappers for the
     # leaves no variable can hold); Colang 2.x value generation uttered as a variable and through an interpolated string (first
     # and second value), thorough tier also the Colang 1.0 `$val = ...` flow
@@ -1196,7 +1336,7 @@ def enumerate_cases(tier):
                 specs = [raw_spec(c) for c in raws] + [msg_spec(c) for c in pays]
                 if v2 and tier == "quick":
                     specs = specs[:: 2] if k == 0 else specs[1:: 2]
-                specs = specs + [ctl_spec(c) for c in ctls]
+                specs = specs + [ctl_spec(c) for c in ctls] + [data_spec(c) for c in datas]
                 if cfg["dialog"] and not v2:
                     # hostile bot intents in the format of the task (multi-step mode: as the first and as a later step)
                     specs = specs + [int_spec(c, st_) for c in ints for st_ in ((0, 1) if mode == "multi" and k == 1 else (0,))]
@@ -1221,6 +1361,7 @@ def enumerate_cases(tier):
         k_intent = {"three": 1, "multi": 1, "passdlg": 1, "single": 0}.get(mode)
         for k in range(npos):
             specs = [raw_spec(c) for c in raws if tier != "quick" or c in REPEAT_CORE] + [ctl_spec(c) for c in (ctls if tier != "quick" else ctls[:1])]
+            specs = specs + [data_spec(c) for c in datas]  # plain-data message texts (final bot message of both turns at the last position)
             if cfg["dialog"]:
                 specs = specs + [int_spec(c, st_) for c in ints for st_ in ((0, 1) if mode == "multi" and k == 1 else (0,))]
             for spec in specs:
@@ -1342,7 +1483,7 @@ def _check(case, obs):
     repeated = max([len(v) for v in same.values()] or [0])
     if repeated >= 2:
         labels.append(f"same-answer-in-turns={repeated}")
-    failed_turns = 0
+    failed_turns = surrogate_turns = 0
     last = len(case["turns"]) - 1
     for t, (spec, o) in enumerate(zip(case["turns"], obs.turns)):
         reached = [r for r in sess.reached if r["turn"] == t]
@@ -1371,6 +1512,11 @@ def _check(case, obs):
             counters[f"empty-reply|{mode}|{'benign' if t == last else 'hostile'}-turn"] = 1
         if t == last and not reached:
             labels.append(f"benign-turn-without-llm-call:{mode}")
+        if has_surrogate(text):
+            surrogate_turns += 1
+            labels.append(f"reply-with-lone-surrogate:{mode}")
+        if "<think>" in text and "</think>" not in text[text.index("<think>"):]:
+            labels.append(f"reply-with-unclosed-think:{mode}")
         # template / variable syntax at message-text positions
         by_design = any(r["task"] not in MESSAGE_TASKS and "secret_var" in r["answer"] for r in hostile)
         bare = LLM_MARK.sub("", text)
@@ -1421,6 +1567,12 @@ def _check(case, obs):
                 counters[f"lit|{cfg['mode']}|{r['task']}|{spec_['lit']['leaf']}|{spec_['lit']['slot']}"] = 1
         if r["kind"] == "int":
             labels.append(f"bot-intent:{r['c']}:{r['task'] if r['task'] in ('generate_next_steps', 'single_call') else 'other-task'}")
+        if family(r["c"]):
+            # lone surrogates / reasoning-trace tokens: as raw text anywhere, or (dat) as the message text in the task's format
+            labels.append(f"{family(r['c'])}:{r['kind']}:{r['task']}")
+            counters[f"{family(r['c'])}|{cfg['mode']}|{r['task']}|{r['k']}|{r['kind']}"] = 1
+        if r["kind"] == "dat":
+            labels.append(f"plain-data:{r['task'] if r['task'] in MESSAGE_TASKS else 'non-message-task'}")
         if r["kind"] == "ctl":
             labels.append(f"control-string:{r['task'] if r['task'] in MESSAGE_TASKS else 'non-message-task'}")
         elif str(r["c"]).startswith("peer-placeholder"):
@@ -1430,6 +1582,16 @@ def _check(case, obs):
         # a later turn ended that way again
         labels.append(f"internal-error-turns={failed_turns}:{mode}")
         counters[f"internal-error-turns>=2|{mode}"] = 1
+    if surrogate_turns:
+        # (measured) the shape of the conversation the caller keeps: how many replies carried a lone surrogate, and whether the
+        # texts of the conversation take the plain form of the implicit history cache key (no ':' in a user / assistant text,
+        # none starts with '{' or '[') - the tree keeps one cache entry per turn when no `state` is passed (Colang 1.0)
+        labels.append(f"lone-surrogate-replies={min(surrogate_turns, 3)}")
+        if cfg["v"] == 1:
+            texts = [m.get("content") for m in sess.messages if m.get("role") in ("user", "assistant")]
+            plain = all(isinstance(x, str) and ":" not in x and x[:1] not in ("{", "[") for x in texts)
+            labels.append("lone-surrogate-reply:history-key-" + ("plain" if plain else "json"))
+            counters[f"surrogate-reply|{cfg['mode']}|{'plain' if plain else 'json'}-key|turns={min(surrogate_turns, 3)}"] = 1
     missed = len(case.get("place", [])) - len([r for r in sess.reached if r["c"] is not None])
     if missed > 0:
         labels.append("placement-not-reached")
@@ -1474,11 +1636,18 @@ def _rearm():
 
 CYCLE_WORDS = ("goto", "continue")
 SHORT_LIMIT = 6  # seconds; ~400x the normal time of a Colang 1.0 turn
+THINK_LIMIT = 10  # seconds; cases with a think-token text among the placements and no 50k text
 
 
 def _limit(case):
     """Cases carrying the text signature of the listed hang C17-F7e (multi-step mode, a corpus text with a `goto` / `continue`
     cycle) run under a short inner limit, so that the listed finding costs seconds, not minutes, per instance."""
+    specs = [spec for _, _, spec in case.get("place", [])]
+    if THINK_LIMIT and any("think>" in json.dumps(spec) for spec in specs) and not any(spec.get("long") for spec in specs):
+        # a placement carries a reasoning-trace token (corpus text, plain-data text or a token a mutation inserts) and none is
+        # a 50k text: such a conversation takes well under a second (the slowest of the 432 enumerated ones 3 s with the
+        # construction of a Colang 2.x instance on a loaded machine), so a turn that never returns is reported after 10 s + 30 s
+        return THINK_LIMIT
     if case["config"]["mode"] in ("v2llmc", "v2llmc1"):
         # text signature of the self-starting generated flow (C17-F7j): normal time of such a turn is < 1 s
         if any(spec.get("c") in PENDING_RAW["C17-F7j"] for _, _, spec in case.get("place", [])):
